@@ -16,7 +16,7 @@ RULE = (
     "Generated systems with 1-3 sources (the battery is any of them, positive), with and "
     "without 2-4 load phases (the battery itself sometimes inactive in a phase), and scripted "
     "battery models given as data: initial capacity sized for 2..30 phase cycles (or, "
-    "without phases, a voltage curve that reaches the cutoff after 5..150 of the ~1000 "
+    "without phases, a voltage curve that reaches the cutoff after 5..60 of the ~1000 "
     "steps), open-circuit voltage and resistance piecewise linear in the state of charge, "
     "depletion cap -= t*i/3600. The callbacks record every argument. Oracle = a model of the "
     "loop: call k receives the duration of phase k mod n in declared order (no phases: "
@@ -104,6 +104,8 @@ def body(case, stats):
             raise Skip("battery_supplies_no_current")
         c0 = per_cycle * m["cycles"]
         cutoff = m["cut"] * v0 * min(f for _s, f in m["volt"]) * 0.9
+        if cutoff >= volt[-1][1]:
+            cutoff = 0.5 * volt[-1][1]
     else:
         if inom[0] <= 0:
             raise Skip("battery_supplies_no_current")
@@ -111,6 +113,12 @@ def body(case, stats):
         # voltage falls linearly with the state of charge: cutoff after about `steps` steps
         soc_cut = 1.0 - m["steps"] / 1000.0
         cutoff = piecewise(soc_cut, volt)
+        if cutoff >= volt[-1][1]:
+            # flat / plateau curve: the cutoff would stop the run at once; end by capacity
+            # of a small cell instead (about `steps` of the ~1000 steps are too many: use a
+            # steep last segment)
+            volt = [(0.0, 0.5 * volt[-1][1]), (soc_cut, volt[-1][1]), (1.0, volt[-1][1])]
+            cutoff = 0.75 * volt[-1][1]
     model = {"c0": c0, "volt": volt, "res": m["res"]}
     bat = Battery(model)
     sys = B.build(spec)
@@ -241,12 +249,17 @@ def body_reject(case, stats):
 def _models():
     res = st.lists(st.tuples(st.floats(0.0, 1.0), G.logf(1e-3, 0.2)), min_size=2,
                    max_size=4).map(lambda l: sorted(l))
-    volt = st.lists(st.floats(0.75, 1.0), min_size=2, max_size=4).map(
+    sloped = st.lists(st.floats(0.75, 1.0), min_size=2, max_size=4).map(
         lambda l: [(i / (len(l) - 1), v) for i, v in enumerate(sorted(l))])
+    # plateau cells: the voltage repeats exactly while the impedance keeps changing
+    plateau = st.tuples(st.floats(0.75, 0.95), st.floats(0.1, 0.6)).map(
+        lambda t: [(0.0, t[0]), (t[1], 1.0), (1.0, 1.0)])
+    flat = st.floats(0.8, 1.0).map(lambda v: [(0.0, v), (1.0, v)])
+    volt = st.one_of(sloped, sloped, plateau, flat)
     return st.fixed_dictionaries({
         "volt": volt, "res": res.map(lambda l: [(s_, r) for s_, r in _dedup(l)]),
         "cycles": st.floats(2.0, 30.0), "cut": st.floats(0.5, 1.02),
-        "steps": st.integers(5, 150), "c0_abs": G.logf(0.01, 10.0),
+        "steps": st.integers(5, 60), "c0_abs": G.logf(0.01, 10.0),
     })
 
 
